@@ -71,6 +71,9 @@ SPECIALS = [
     ".macro m(a) { .byte 1/a, 1%a, 1<<a }", ".if 0 { .byte 1 << 64 }", ".macro m() { bne 0 }", ".macro m() { bne + \n .loop 200 { nop } }",
     "nop\n" * 3000, "a: {" * 200 + "}" * 200, "((((" * 500, "lda #" + "(" * 300 + "1" + ")" * 300, "lda #" + "1+" * 3000 + "1", "lda #" + "-" * 50 + "1", "lda #" + "!" * 50 + "1",
     "/*" * 2000, "{ " * 3000, ".if 1 {" * 500, "lda #" + "(" * 5000 + "1", ".byte " + "(" * 20000, "m(" * 5000, "a: {" * 5000,
+    # configuration maps inside configuration maps
+    '.define segment { name = "a" start = 1 ' + "a = { " * 20000 + " b = 1 " + "}" * 20000 + " }", ".define segment { " + "a = { " * 5000,
+    '.define bank { name = "k" ' + "x = { y = 1 " * 3000 + "}" * 3000 + " }\nnop", ".define segment { a = { b = { c = 1 } } }\nnop",
     ".macro a() { a()\n a() }\na()", ".macro a() { b()\n b() }\n.macro b() { a()\n a() }\na()",
     '.define bank {\n name = "b"\n size = -1\n fill = 0\n}\nnop', '.define bank {\n name = "b"\n size = 9223372036854775807\n fill = 0\n}\nnop',
 ]
@@ -139,6 +142,19 @@ IMPORT_GRAPHS = [
     {"main.asm": '.macro m() { .import * from "a.asm" }\nm()\nm()', "a.asm": "x: nop"},
     {"main.asm": '.loop 3 { .import * from "a.asm" }', "a.asm": "x: nop"},
     {"main.asm": '.if 0 { .import * from "a.asm" }\nnop', "a.asm": '.import * from "main.asm"'},
+    # cycles in which every import is spelled with a dot segment
+    {"main.asm": '.import * from "sub/../main.asm"\nnop', "sub/x.asm": "nop"},
+    {"main.asm": '.import * from "./main.asm"\nnop'},
+    {"main.asm": '.import * from "./a.asm"\nnop', "a.asm": '.import * from "./main.asm"\nx: nop'},
+    {"main.asm": '.import * from "sub/../a.asm"\nnop', "a.asm": '.import * from "sub/./../main.asm"\nx: nop', "sub/x.asm": "nop"},
+    # aliases with dotted paths (an alias below another alias of the same statement, below itself, below the imported name)
+    {"main.asm": '.import a as x, a.b as x.b.c from "a.asm"\nnop', "a.asm": "a: { b: { nop } }"},
+    {"main.asm": '.import a as x.y from "a.asm"\njmp x.y', "a.asm": "a: { b: { nop } }"},
+    {"main.asm": '.import a.b as a from "a.asm"\nnop', "a.asm": "a: { b: { nop } }"},
+    {"main.asm": '.import a as a.b from "a.asm"\nnop', "a.asm": "a: { b: { nop } }"},
+    {"main.asm": '.import a as x, a as x.a, a.b as x.a.b from "a.asm"\njmp x.a.b', "a.asm": "a: { b: { nop } }"},
+    {"main.asm": '.import a.b as x, a as x.q from "a.asm"\nnop', "a.asm": "a: { b: { nop } }"},
+    {"main.asm": '.import * as n from "a.asm"\n.import a as n.a.b.a from "a.asm"\nnop', "a.asm": "a: { b: { nop } }"},
 ]
 
 
